@@ -372,7 +372,7 @@ class Helper:
         'os.path.basename', 'os.path.split', 'os.path.realpath',
         'builtins.zip', 'builtins.filter', 'builtins.map',
         'itertools.chain', 'itertools.chain.from_iterable',
-        'builtins.dict',
+        'builtins.dict', 'builtins.divmod',
     }
 
     def container_writes(self, func):
